@@ -200,7 +200,10 @@ func stratMenu(g string, p []int, bound *big.Int, q *big.Int) []Strat {
 			bitsAlias()
 		}
 		one("bits.nBits", "flip")
-	case "cmp.IsEqual":
+	case "cmp.IsLess.const", "cmp.IsLessOrEqual.const":
+		bitsAlias()
+		one("bits.nBits", "flip")
+	case "cmp.IsEqual", "cmp.IsEqual.const":
 		// api.IsZero hint lives in gnark internals (name differs per builder): matched by suffix below
 		one("solver.InvZeroHint", "zero")
 		one("solver.InvZeroHint", "add", "1")
